@@ -30,11 +30,51 @@ def boundary_cases():
             yield ('flowspec', ('dir=unreach',) + cv, {'attr': {15: {'afi_safi': (1, 133), 'withdraw': rules}}}, True)
 
 
+_reps = {}
+
+
+def family_representatives(tier):
+    """the first and the last MP_REACH and MP_UNREACH case of every C07 family"""
+    if tier not in _reps:
+        first, last = {}, {}
+        for fam, cv, msg, asn4 in pools.c07_cases(tier):
+            if not asn4 or fam == 'ipv4-unicast-mp':
+                continue
+            d = 14 if 14 in msg['attr'] else 15 if 15 in msg['attr'] else None
+            if d is None or (14 in msg['attr'] and 15 in msg['attr']):
+                continue
+            first.setdefault((fam, d), msg)
+            last[(fam, d)] = msg
+        _reps[tier] = [(k, m) for k, m in sorted(first.items())] + [(k, m) for k, m in sorted(last.items()) if m is not first[k]]
+    return _reps[tier]
+
+
+def combination_cases(tier):
+    """message shapes the per-family pools do not have: MP_REACH and MP_UNREACH in one UPDATE (same and different families), and
+    either of them next to IPv4 withdrawn routes / IPv4 NLRI"""
+    import copy
+    reps = family_representatives(tier)
+    reach = [(k, m) for k, m in reps if k[1] == 14]
+    unreach = [(k, m) for k, m in reps if k[1] == 15]
+    for (kr, mr) in reach:
+        for (ku, mu) in unreach:
+            attr = copy.deepcopy(mr['attr'])
+            attr[15] = copy.deepcopy(mu['attr'][15])
+            yield ('combo', ('reach=' + kr[0], 'unreach=' + ku[0]), {'attr': attr}, True)
+    for (k, m) in reps:
+        attr = copy.deepcopy(m['attr'])
+        yield ('combo', ('mp=%s/%d' % k, 'ipv4=withdraw'), {'attr': attr, 'withdraw': ['10.1.0.0/16', '0.0.0.0/0']}, True)
+        if k[1] == 14:
+            attr = copy.deepcopy(m['attr'])
+            attr[3] = '10.0.0.9'
+            yield ('combo', ('mp=%s/%d' % k, 'ipv4=nlri+withdraw'), {'attr': attr, 'nlri': ['192.0.2.0/25'], 'withdraw': ['10.1.0.0/16']}, True)
+
+
 def cases_of(which, tier):
     if which == 'c06':
         return pools.c06_cases(tier)
     import itertools
-    return itertools.chain(pools.c07_cases(tier), boundary_cases())
+    return itertools.chain(pools.c07_cases(tier), boundary_cases(), combination_cases(tier))
 
 
 def task(args):
